@@ -61,6 +61,19 @@ def recompute_then_store(rng):
     return prog, programs.Interp(np, False).run(prog)
 
 
+def shared_source(rng):
+    """Two consumers of one IN-MEMORY input, one of them an order statistic along an axis held in a single chunk (its block is
+    a view of the user's array): re-execution, reordering and in-process placement must leave the other consumer's chunks alone."""
+    import numpy as np
+    r, c = rng.choice([(6, 5), (8, 3)])
+    inp = dict(shape=[r, c], chunks=[2, c], dtype="float64", seed=rng.randint(1, 9), pattern="lin", src="asarray")
+    steps = [dict(op="nanmedian", args=[0], kw=dict(axis=1)), dict(op="negative", args=[0])]
+    if rng.random() < 0.5:
+        steps = steps[::-1]
+    prog = dict(inputs=[inp], steps=steps, outs=[1, 2], family="shared-in-memory-source", optimize=rng.random() < 0.5)
+    return prog, programs.Interp(np, False).run(prog)
+
+
 def run(chk):
     chk.rule = ("generated programs + structured DAGs + cubed.random inputs; schedule = shuffled tasks, 30% repeats (now / after "
                 "op end / after downstream ops / at the very end), pickle placement for ~10% of executions in quick; compared "
@@ -72,7 +85,7 @@ def run(chk):
     per = 1 if chk.tier == "quick" else 3
     docs, metas, errors = [], [], []
     tries = 0
-    forced = [(recompute_then_store(rng), pk) for pk in (0.0, 1.0)]
+    forced = [(recompute_then_store(rng), pk) for pk in (0.0, 1.0)] + [(shared_source(rng), 0.0), (shared_source(rng), 0.0)]
     n += len(forced)
     while len(docs) < n and tries < n * 3:
         tries += 1
